@@ -19,8 +19,13 @@ PROPERTIES = {
             "trimesh ray.intersects_location modelled as an arbitrary finite list of hit locations per occluder (0..2 hits, symbolic positions); numpy arrays of concrete shape",
             "Vector.__truediv__ used through its C07 contract at call sites inside canSee",
         ],
+        bounded=[
+            "stand-in view_volume_catalogue (never counted as proved): the real Object.canSee on 3 viewer poses x 4 view settings x box targets (cube, beam, plate) placed in the viewer's frame at "
+            "4 ranges x 5 azimuths x 2 altitudes x 2 yaws (2880 configurations in the thorough tier, every fifth in the quick tier), brute-force surface sampling as oracle: "
+            "wholly outside the view volume => not visible; substantial part inside, nothing occluding => visible; a wall never adds visibility; a covering wall hides a compact target",
+        ],
         not_reached=[
-            "visibility.canSee object branch (ray casting with numpy/trimesh): 'an object is seen whenever a substantial part of it is in view' is not proved",
+            "visibility.canSee object branch (ray casting with numpy/trimesh): not proved; covered only by the bounded stand-in view_volume_catalogue",
             "mesh geometry of ViewRegion / ViewSectionRegion / CylinderSectionRegion (only the parameters and the case split are under contract; C16/C04)",
             "VisibilityRequirement occluder sets (C02, F21)",
         ],
